@@ -665,7 +665,7 @@ def corpus():
     yield {"op": "getsamples", "w": 1, "rate": 8, "hex": ramp(9, 1), "t0": 0.0625, "t1": 0.203125}
     yield {"op": "query", "w": 1, "rate": 8, "hex": ramp(9, 1), "t0": 0.3125, "t1": None}
     yield {"op": "query", "w": 2, "rate": 44100, "hex": "0080ff7fff7fff7fff7fff7fff7fff7fff7f0000ff7fff7f", "t0": 0.00010204081632653062, "t1": None}
-    # C16-2 (fixed, 300c9d2): times outside the recording.  A negative time became a negative Python slice bound (counted from
+    # C16-2 (fixed, 3f424d1): times outside the recording.  A negative time became a negative Python slice bound (counted from
     # the END of the frames): getSamples(-0.5, 0.5) was empty, deleteSegment(-0.5, 0.25) returned 26 samples for 16,
     # insert(-0.25, x) put x before the last two samples; QueryWav raised wave.Error for the same windows and for a start
     # beyond the end (where Wav returns nothing)
@@ -680,7 +680,7 @@ def corpus():
         yield {"op": "readat", "w": w, "rate": 8, "hex": ramp(16, w), "t0": -0.5, "t1": 0.5}
         yield {"op": "index", "w": w, "rate": 8, "hex": ramp(16, w), "t": -0.5}
         yield {"op": "index", "w": w, "rate": 8, "hex": ramp(16, w), "t": 2.5}
-    # C16-3 (fixed, 0a07868): a time range that ends before it starts.  deleteSegment(0.5, 0.25) returned 18 samples for 16
+    # C16-3 (fixed, 906b45b): a time range that ends before it starts.  deleteSegment(0.5, 0.25) returned 18 samples for 16
     # (frames[:i] + frames[j:] with i > j duplicates the samples in between), replaceSegment likewise; getSamples(0.5, -0.25)
     # returned 10 samples from Wav and () from QueryWav.  All raise ArgumentError now, before anything is changed
     for w in WIDTHS:
